@@ -152,16 +152,26 @@ def trace_level():
         expect("a mangled event stops validation (machinery error, not silence)", True, type(exc).__name__)
 
 
+# (refactoring name -> (file, [(old, new)...], checks that must stay green))
+MORE_REFACTORINGS = {
+    "annotate-reorder-independent-statements": ("src/reuse/cli/annotate.py",
+        [("    template, commented = get_template(template_str, project)\n    year = get_year(years, exclude_year)\n",
+          "    year = get_year(years, exclude_year)\n    template, commented = get_template(template_str, project)\n")], ("C11", "C07")),
+    "download-rename-local": ("src/reuse/download.py",
+        [("    url = urljoin(", "    address = urljoin("), ("license from '%s'\", url)", "license from '%s'\", address)"),
+         ("urllib.request.urlopen(url)", "urllib.request.urlopen(address)")], ("C19",)),
+}
 REFACTORINGS = {
     "rename-local": ("src/reuse/covered_files.py", [("    name = path.name\n", "    base_name = path.name\n"),
-                                                    ("pattern.match(name)", "pattern.match(base_name)"),
+                                                    ("pattern.fullmatch(name)", "pattern.fullmatch(base_name)"),
                                                     ('name != "REUSE.toml"', 'base_name != "REUSE.toml"')]),
     "equivalent-regex-and-wording": ("src/reuse/extract.py", [("_HEADER_BYTES = 4096", "_HEADER_BYTES = 4 * 1024")]),
 }
 
 
 def refactorings(checks=("C03", "C02", "C12")):
-    for name, (rel, subs) in REFACTORINGS.items():
+    todo = [(n, rel, subs, checks) for n, (rel, subs) in REFACTORINGS.items()] + [(n, rel, subs, ch) for n, (rel, subs, ch) in MORE_REFACTORINGS.items()]
+    for name, rel, subs, checks in todo:
         wt = Path(subprocess.run(["mktemp", "-d", "/tmp/selfwt.XXXXXX"], capture_output=True, text=True).stdout.strip())
         wt.rmdir()
         subprocess.run(["git", "-C", str(core.REPO), "worktree", "add", "-q", "--detach", str(wt), "HEAD"], check=True)
